@@ -116,8 +116,8 @@ func init() {
 		Old: "\tstore := stores.VMetadata()\n\tpth := model.GetArchivePathToLabel(repo, name)", New: "\tstore := stores.Metadata()\n\tpth := model.GetArchivePathToLabel(repo, name)",
 		Expect: "delete-label"})
 	addWitness(witness{Prop: "C08", Name: "list-name-mismatch-tolerated", File: "pkg/core/label_list.go",
-		Old: "\t\t} else if label.Descriptor.Name != apc.LabelName {\n\t\t\toutput <- labelEvent{err: fmt.Errorf(\"label names in descriptor '%v' and archive path '%v' don't match\", label.Descriptor.Name, apc.LabelName)}\n\t\t\tcontinue\n\t\t}",
-		New: "\t\t} else if label.Descriptor.Name != apc.LabelName {\n\t\t\t_ = fmt.Sprintf(\"mismatch %v\", apc.LabelName)\n\t\t}",
+		Old:    "\t\t} else if label.Descriptor.Name != apc.LabelName {\n\t\t\toutput <- labelEvent{err: fmt.Errorf(\"label names in descriptor '%v' and archive path '%v' don't match\", label.Descriptor.Name, apc.LabelName)}\n\t\t\tcontinue\n\t\t}",
+		New:    "\t\t} else if label.Descriptor.Name != apc.LabelName {\n\t\t\t_ = fmt.Sprintf(\"mismatch %v\", apc.LabelName)\n\t\t}",
 		Expect: "list-resolves-name"})
 }
 
